@@ -261,10 +261,10 @@ def expand_factory(parent_dir, modes):
         for label, fn, mfn in ops():
             results = {}
             for mode in modes:
-                shutil.copyfile(path, work)
-                for ext in ('-journal', '-wal', '-shm'):
+                for ext in ('', '-journal', '-wal', '-shm'):
                     if os.path.exists(work + ext):
                         os.remove(work + ext)
+                shutil.copyfile(path, work)
                 u = universe(mode)
                 m2 = model.copy()
                 exp = mfn(m2, u)
